@@ -240,7 +240,7 @@ func init() {
 	oracles["c19.cli"] = oracleC19CLI
 	oracles["c19.cycle"] = oracleC19Cycle
 	properties["C19"] = &Property{
-		ID: "C19", LeanMods: []string{"CrsProps.C19"},
+		ID: "C19", LeanMods: []string{"CrsProps.C19", "CrsProps.C19Update"},
 		Corr: "K2 (parser.Parse), K3 (clean-up passes on arbitrary text: same fault class in model and code), K5 (Operator.Run end to end, real rassemble.Join answers fed to the model; every Join result monitored for the EngineShape assumption)",
 		Rule: "token-level fuzz: 1..40 (quick) / 1..600 (thorough) tokens from directive fragments, regex metacharacters, escapes (incl. escaped parentheses before `?i:`), braces, quotes, control and non-ASCII bytes, on stdin and in an include file; every third text is line-structured (well-formed cmdline/assemble block starts and ends around entries of one to four escape/marker tokens, so that lines like a lone `\\@` occur inside blocks and include files); plus programs from the tree grammar with 20% structural faults; non-trivial = text of at least two tokens; distinct by bytes",
 		Gen:  genC19, Escalate: escalatePassText("c19.nocrash", "c19.cli"),
